@@ -195,7 +195,7 @@ def spec_on_impl(o):
     ports = all_ports(o["ranges"]) if o["mode"] == 1 else [None]
     ok, msg, pass_ports = judge_passes(o, entries, outs, cache, len(ports))
     if not ok:
-        return "%s file, %s: %s" % (("pairs", "address", "address")[o["mode"]], o["source"], msg)
+        return "%s file, %s: %s%s" % (("pairs", "address", "address")[o["mode"]], o["source"], msg, long_line_detail(o, entries, outs, len(ports)))
     if o["mode"] == 1:
         known = sorted(p for p in pass_ports if p is not None)
         pool = sorted(ports)
@@ -205,6 +205,29 @@ def spec_on_impl(o):
             else:
                 return "address file, %s: a pass over the file for port %d which the port ranges do not (or no longer) denote" % (o["source"], p)
     return None
+
+
+def long_line_detail(o, entries, outs, npasses):
+    """names the over-long physical line of a failing file and what the outputs make of it: the error records it gets
+    and the probes / records for addresses no valid line of the file names (only wording; the verdict is judge_passes')"""
+    longs = [(i, l) for i, l in enumerate(o.get("lines") or []) if l.get("len")]
+    if not longs:
+        return ""
+    i, l = longs[0]
+    named = set(T.ip_key(e[1]) for e in entries if e[0] == "good")
+    foreign = [(ip, p, err) for (ip, p, err, mac) in outs if ip and T.ip_key(ip) not in named]
+    ntl = sum(1 for r in outs if r[2] == 6)
+    nbadjson = sum(1 for r in outs if r[2] == 5)
+    s = " [line %d of the file is ONE physical line of %d bytes (%s)" % (i + 1, l["len"], l["class"])
+    if l.get("tail"):
+        s += "; its bytes from offset %d on read %r" % (l["tail_at"], l["tail"][:60])
+    s += "; the %d pass(es) over the file give %d 'line too long' and %d 'invalid json' records where the line is due exactly one " \
+         "'line too long' record per pass" % (npasses, ntl, nbadjson)
+    if foreign:
+        ip, p, err = foreign[0]
+        s += "; %d output(s) for an address no valid line names, the first %s %s:%d" % (
+            len(foreign), "a probe to" if not err else "the error '%s' for" % T.ERRNAME.get(err, err), T.ip_text(ip), p)
+    return s + "]"
 
 
 def stage_term(o):
@@ -237,7 +260,7 @@ def report(ctx, o, why):
         "property": "C13", "what": why, "input": {"kind": o["kind"], "case_seed": o["case_seed"]},
         "observed": small, "replay_cmd": "bin/check C13 --replay <this file>"})
     bad = sorted(set(l["class"] for l in o.get("lines") or [] if l["class"] in
-                     ("noip", "noport", "empty-object", "badip", "badport", "badtype", "badjson", "blank", "toolong")))
+                     ("noip", "noport", "empty-object", "badip", "badport", "badtype", "badjson", "blank", "toolong") or l["class"].startswith("toolong-")))
     key = "%s:%s:mode%d:%s:filter=%s:cache=%s:%s" % (o["kind"], o["cmd"], o["mode"], o.get("source", ""), o["filter"], o["cache"], "+".join(bad))
     ctx.findings.append({"key": key, "what": why, "replay": path})
 
@@ -286,7 +309,7 @@ def run(ctx):
     rows = []
     if ctx.harness_build("c13"):
         args = ["-out", "cases.jsonl", "-seed", ctx.seed]
-        args += ["-n", 600, "-nstages", 200, "-nburst", 2] if quick else ["-n", 20000, "-nstages", 6000, "-nburst", 24]
+        args += ["-n", 600, "-nstages", 200, "-nburst", 2, "-nlong", 48] if quick else ["-n", 20000, "-nstages", 6000, "-nburst", 24, "-nlong", 1500]
         ok, _ = ctx.harness_run("c13", args, timeout=3000)
         if ok:
             rows = ctx.read_jsonl(os.path.join(ctx.work, "cases.jsonl"))
@@ -313,6 +336,7 @@ def run(ctx):
         ctx.count(cls, (o["kind"], o["case_seed"]), nontrivial=nontrivial(o),
                   sample={"kind": o["kind"], "cmd": o["cmd"], "mode": o["mode"], "source": o.get("source"), "filter": o["filter"],
                           "cache": o["cache"], "gateway": o["gateway"], "lines": [l["class"] for l in (o.get("lines") or [])][:12],
+                          "long_line_bytes": max([l.get("len", 0) for l in (o.get("lines") or [])] or [0]),
                           "outputs": len(T.decode_reqs(T.hb(o.get("out")))), "err": o["err"]})
         why = spec_on_impl(o)
         if why:
